@@ -5,6 +5,7 @@ go 1.15
 require (
 	github.com/blang/semver v3.5.1+incompatible
 	github.com/cenkalti/backoff/v4 v4.2.0
+	github.com/jacobsa/fuse v0.0.0-20220531202254-21122235c77a
 	github.com/oneconcern/datamon v0.0.0
 	github.com/segmentio/ksuid v1.0.4
 	github.com/spf13/afero v1.9.3
